@@ -28,7 +28,9 @@ ENTRY = dict(
                    "writes found in the source. Proved: registries invariant under every call and history; global generators untouched by the "
                    "three call classes, where the generation class is `does not reach the sampler`: num_samples = inf always, finite num_samples >= "
                    "1/smallest probability, and refused num_samples < 1 (numpy's state moves only in a generation that reaches the sampler); results independent of "
-                   "history, of the generator states and of the interpreter; closed form of the seeded result. Closed under the global context. "
+                   "history, of the generator states and of the interpreter; closed form of the seeded result; and, with the executable cut-finder model of C07/C08 "
+                   "plugged in for find_cuts (action list read from the process registry, tape = function of the seed): in every state reachable from import the seeded "
+                   "result IS that search model's output. Closed under the global context. "
                    "The model's write-set is tied to /repo by 15 regenerated AST facts over the whole package (globals, every write to them or "
                    "through a parameter, every RNG use, every history source) and by running >250 real calls per run in separate interpreters.",
         level_note=STD_NOTE + "No axioms. The theorems are about the PROCESS MODEL (Model/Process.v), not about CPython: what the three calls "
@@ -48,7 +50,15 @@ ENTRY = dict(
             "greedy_best_first_search's three attribute assignments are mirrored line by line, everything else the calls compute is an abstract function",
             "O-rng: numpy.random.default_rng(seed) with an integer seed yields a stream that is a function of the seed and does not involve the global "
             "RandomState (monitored on every seeded find_cuts call, in every interpreter)",
-            "typing.cast(T, x) returns x (monitored); QPDBasis.probabilities are non-negative (hypothesis probs_nonneg; monitored on every generation case)",
+            "typing.cast(T, x) returns x (monitored)",
+            "QPDBasis.probabilities = |coeffs| / sum|coeffs| and _min_filter_nonzero / np.prod are modelled (Process.probabilities, min_filter_nonzero, "
+            "prod_min_nonzero) in exact rationals; that the smallest probability is >= 0 is now a theorem (c09_smallest_probability_nonneg), no longer a "
+            "hypothesis; the formula probabilities == |coeffs|/kappa is monitored on every generation case",
+            "cut finder made concrete (Model/ProcessCF.v): find_cuts_pure is instantiated by the executable cut-finder model of C07/C08 (Model/CutFinder*.v) "
+            "with the action list read from the fresh copy of the process registry; c09_seeded_search_model etc. are therefore statements about that search "
+            "model, whose own tie to /repo is C07's correspondence (tape recorded from default_rng); C09 adds the group stream (get_group('TwoQubitGates') of "
+            "real filtered copies vs two_qubit_group and vs the list the search model hard-codes). A function table that does not hold the five import-time "
+            "functions, or an action name unknown to the search model, is outside this instance (value None); unreachable from import by c09_import_state_reachable",
             "with num_samples = inf, threshold = 1/inf = 0.0 and `smallest_probability >= threshold` holds, so _generate_qpd_weights returns from the "
             "all-exact branch before _populate_samples (the only np.random.choice site); modelled in reaches_sampler, observed on every generation call",
             "function objects and action objects are modelled by their names; object identity (`is`) of every registry member, of both tables' slots and "
